@@ -50,6 +50,11 @@ func c18Setup() *c18Env {
 	os.MkdirAll(filepath.Join(p, "export-sibdir", "canarydir"), 0o755)
 	os.WriteFile(filepath.Join(p, "export-sibdir", "canary"), []byte(c18Marker+"sibdir"), 0o644)
 	os.MkdirAll(filepath.Join(root, "d", "dd"), 0o755)
+	// symbolic links that stay inside the export but lead to a shallower place: '..' behind
+	// them is the parent of where they lead, not of where they are
+	os.Mkdir(filepath.Join(root, "shallow"), 0o755)
+	os.Symlink("../../shallow", filepath.Join(root, "d", "dd", "up"))
+	os.Symlink(root, filepath.Join(root, "d", "dd", "toroot"))
 	os.WriteFile(filepath.Join(root, "x"), []byte("inside x"), 0o644)
 	os.WriteFile(filepath.Join(root, "d", "y"), []byte("inside y"), 0o644)
 	os.WriteFile(filepath.Join(root, "d", "dd", "z"), []byte("inside z"), 0o644)
@@ -192,6 +197,9 @@ func c18ScenarioRoot(use string, dotu bool, part, parts int, rootStyle string) S
 			os.WriteFile(filepath.Join(env.root, "x"), []byte("inside x"), 0o644)
 			os.WriteFile(filepath.Join(env.root, "d", "y"), []byte("inside y"), 0o644)
 			os.WriteFile(filepath.Join(env.root, "d", "dd", "z"), []byte("inside z"), 0o644)
+			os.Mkdir(filepath.Join(env.root, "shallow"), 0o755)
+			os.Symlink("../../shallow", filepath.Join(env.root, "d", "dd", "up"))
+			os.Symlink(env.root, filepath.Join(env.root, "d", "dd", "toroot"))
 			before := env.outsideState()
 			rootIno = func() uint64 { fi, _ := os.Lstat(env.root); return fi.Sys().(*syscall.Stat_t).Ino }()
 			var leak string
@@ -309,6 +317,15 @@ func c18ScenarioRoot(use string, dotu bool, part, parts int, rootStyle string) S
 							rpc(&wire.Msg{Type: wire.Tclunk, Fid: 21})
 						}
 					}
+					// the same element lists behind a symbolic link that leads (inside the export) to a
+					// shallower directory: '..' then starts from where the link leads
+					for _, pre := range [][]string{{"d", "dd", "up"}, {"d", "dd", "toroot"}} {
+						el := append(append([]string{}, pre...), elems...)
+						if r := rpc(twalk(0, 0, 22, el...)); r != nil && r.Type == wire.Rwalk && len(r.Wqid) == len(el) {
+							access(22)
+							rpc(&wire.Msg{Type: wire.Tclunk, Fid: 22})
+						}
+					}
 				case "create", "mkdir", "symlink", "link", "mkfifo", "mknod", "mksock":
 					attach("")
 					for si, st := range starts {
@@ -384,6 +401,70 @@ func c18ScenarioRoot(use string, dotu bool, part, parts int, rootStyle string) S
 	}}
 }
 
+// c18PipelinedWalk: a client that does not wait for the Rwalk walks on from the new fid
+// at once. While the first walk is still being carried out the new fid exists but is
+// not bound to a place yet; walking from it must not start anywhere outside the export
+// (explored over the schedules of the two request goroutines).
+func c18PipelinedWalk(dotu bool, P int) Scenario {
+	var env *c18Env
+	var leak string
+	name := fmt.Sprintf("confine pipelined-walk-from-a-fid-being-created dotu=%v", dotu)
+	body := func() {
+		leak = ""
+		h := newUfsH(env.root, 8216, dotu)
+		cl := h.Connect()
+		ver := "9P2000"
+		if dotu {
+			ver = "9P2000.u"
+		}
+		cl.Version(8216, ver)
+		a := tattach(1, 0, wire.NOFID, "", uint32(os.Geteuid()), dotu)
+		cl.Rpc(a)
+		up := filepath.Dir(env.root)
+		abs := strings.Split(strings.Trim(up, "/"), "/")
+		abs = append(abs, "canary")
+		if len(abs) > 16 {
+			abs = abs[len(abs)-16:]
+		}
+		n0 := len(cl.Collect())
+		vs.Window(true)
+		cl.Send(dotu, twalk(2, 0, 5, "d", "dd"), twalk(3, 5, 6, abs...), twalk(4, 5, 7, "..", "..", "..", "canary"))
+		vs.Idle()
+		vs.Window(false)
+		for _, f := range cl.Collect()[n0:] {
+			if l := env.leak(f.Msg); l != "" && leak == "" {
+				leak = l
+			}
+		}
+		for _, fid := range []uint32{6, 7} {
+			if r := cl.Rpc(&wire.Msg{Type: wire.Topen, Tag: 9, Fid: fid, Mode: 0}); r != nil && r.Type == wire.Ropen {
+				rr := cl.Rpc(&wire.Msg{Type: wire.Tread, Tag: 10, Fid: fid, Count: 4096})
+				if l := env.leak(rr); l != "" && leak == "" {
+					leak = l
+				}
+			}
+			if l := env.leak(cl.Rpc(&wire.Msg{Type: wire.Tstat, Tag: 11, Fid: fid})); l != "" && leak == "" {
+				leak = l
+			}
+		}
+	}
+	check := func(x *vs.Exec) *Viol {
+		for _, p := range x.Panics {
+			return &Viol{Sig: "C18/panic/" + p.Frame, Msg: "panic: " + p.Value}
+		}
+		if leak != "" {
+			return &Viol{Sig: "C18/leak/pipelined-walk", Msg: "a walk sent right behind the walk that creates its source fid (Rwalk not awaited) reached outside the export: " + leak}
+		}
+		return nil
+	}
+	return Scenario{Name: name, Run: func(rc *RunCtx) *Result {
+		env = c18Setup()
+		defer func() { os.RemoveAll(env.base) }()
+		env.outsideState()
+		return runVs(rc, &VsSpec{Name: name, Body: body, Check: check, P: P})
+	}}
+}
+
 func diffLines(a, b string) string {
 	am := map[string]bool{}
 	for _, l := range strings.Split(a, "\n") {
@@ -410,6 +491,11 @@ func diffLines(a, b string) string {
 
 func c18Scenarios(tier string) []Scenario {
 	var out []Scenario
+	pw := 2
+	if tier == "thorough" {
+		pw = 3
+	}
+	out = append(out, c18PipelinedWalk(false, pw), c18PipelinedWalk(true, pw))
 	uses := []string{"attach", "walk1", "walkN", "create", "mkdir", "rename"}
 	parts := 4
 	for _, u := range uses {
@@ -443,7 +529,7 @@ func init() {
 	_ = vs.Active
 	register(&Property{ID: "C18", Level: "exploration",
 		Technique: "bounded-exhaustive enumeration of hostile names in every position, executed on the real Ufs over a scratch export with canaries outside",
-		Rule:      "names = every sequence of <= 3 components over {'..', '.', '', 'x' (file), 'd' (directory), 'nope'} joined by '/', with and without leading and trailing '/', plus 4- and 5-level '..' chains and 11 absolute host paths (the export, its spelling as a prefix of a sibling file and of a sibling directory (absolute and through '..'), its parent and neighbours, '/etc', '/') (about 1000 names), used as attach name, single walk element and element list (<= 4, plus two more '..') from the root and from depth 1 and 2, create name for files, directories, symlinks, hard links, named pipes, devices and sockets (the created fid is then read and used like any other), and wstat rename target (the renamed fid is then used like any other); every resulting fid is then stat'ed, walked towards the canaries, listed/read, written, created in, wstat'ed and removed. Oracle: the server's root given as an absolute path, as '.' (process inside the export) and as a relative name; nothing outside the export changes (names, contents, modes, mtimes), no reply carries a qid or data of an outside object, '..' at the root is the root. non-trivial = names x uses executed",
+		Rule:      "names = every sequence of <= 3 components over {'..', '.', '', 'x' (file), 'd' (directory), 'nope'} joined by '/', with and without leading and trailing '/', plus 4- and 5-level '..' chains and 11 absolute host paths (the export, its spelling as a prefix of a sibling file and of a sibling directory (absolute and through '..'), its parent and neighbours, '/etc', '/') (about 1000 names), used as attach name, single walk element and element list (<= 4, plus two more '..') from the root and from depth 1 and 2 and behind symbolic links that lead to a shallower place inside the export, create name for files, directories, symlinks, hard links, named pipes, devices and sockets (the created fid is then read and used like any other), and wstat rename target (the renamed fid is then used like any other); every resulting fid is then stat'ed, walked towards the canaries, listed/read, written, created in, wstat'ed and removed. Oracle: the server's root given as an absolute path, as '.' (process inside the export) and as a relative name; nothing outside the export changes (names, contents, modes, mtimes), no reply carries a qid or data of an outside object, '..' at the root is the root. non-trivial = names x uses executed",
 		Assumptions: []string{"the export is nested 12 levels below the scratch base, deeper than any generated '..' chain (the checks run as root on the real file system)", "the exported tree contains no symlink leaving it (the property's premise); symlink targets supplied by the client are not followed by the check"},
 		Scenarios:   c18Scenarios, QuickS: 110, ThoroughS: 900})
 }
